@@ -499,6 +499,7 @@ func (e *Exec) execBuiltin(b *ssa.Builtin, c *ssa.CallCommon, in ssa.Instruction
 		k := e.term(c.Args[1])
 		mp, _ := mapHeapNames(m)
 		ps := ArraySort(SInt, ArraySort(sortOf(m.Key()), SBool))
+		e.guardedAccess(mp, true, "delete")
 		hp := e.heapGet(mp, ps)
 		e.heapSet(mp, Ite(Eq(mr, IntLit(0)), hp, Store(hp, mr, e.vc.Define("mp", Store(Select(hp, mr), k, False)))))
 		return nil
@@ -547,9 +548,12 @@ func (e *Exec) lenOf(v Val, t types.Type) *Term {
 		mp, _ := mapHeapNames(u)
 		ps := ArraySort(SInt, ArraySort(sortOf(u.Key()), SBool))
 		mr := v.(*Term)
+		e.guardedAccess(mp, false, "len")
 		r := e.vc.Fresh("maplen", BV(64))
 		e.vc.Assume(True, And(SGe(r, bv64zero), SLe(r, maxLen)))
 		e.declareRaw("(declare-fun maplen." + mangle(typeKey(u.Key())) + " (" + ArraySort(sortOf(u.Key()), SBool) + ") (_ BitVec 64))")
+		// an empty map has no keys
+		e.declareRaw("(assert (forall ((ml.a " + ArraySort(sortOf(u.Key()), SBool) + ") (ml.k " + sortOf(u.Key()) + ")) (! (=> (= (maplen." + mangle(typeKey(u.Key())) + " ml.a) #x0000000000000000) (not (select ml.a ml.k))) :pattern ((maplen." + mangle(typeKey(u.Key())) + " ml.a) (select ml.a ml.k)))))")
 		e.vc.Assume(True, Eq(r, App("maplen."+mangle(typeKey(u.Key())), BV(64), Select(e.heapGet(mp, ps), mr))))
 		return r
 	case *types.Chan:
@@ -560,13 +564,13 @@ func (e *Exec) lenOf(v Val, t types.Type) *Term {
 }
 
 func (e *Exec) declareRaw(decl string) {
-	if e.tagFacts == nil {
-		e.tagFacts = map[string]bool{}
+	if e.vc.rawSeen == nil {
+		e.vc.rawSeen = map[string]bool{}
 	}
-	if e.tagFacts[decl] {
+	if e.vc.rawSeen[decl] {
 		return
 	}
-	e.tagFacts[decl] = true
+	e.vc.rawSeen[decl] = true
 	e.vc.items = append(e.vc.items, Item{Raw: decl})
 }
 
